@@ -261,8 +261,14 @@ inductive Op where
   | updateArrays (arrays : List Nat)
   /-- `update()` -/
   | update
-  /-- the caller changes object `o` in place -/
+  /-- the caller changes object `o` in place (moves particles, changes `h`: what
+  the neighbour structure was built from) -/
   | mutate (o : Nat)
+  /-- the caller changes DATA of object `o` in place that the neighbour structure
+  does not depend on: masses, densities, values of the interpolated properties,
+  constants.  Nothing the `Interpolator` holds changes (it keeps references, not
+  copies): no version the NNPS has binned is bumped. -/
+  | touch (o : Nat)
   /-- `SPHEvaluator.update_particle_arrays(arrays)` (sph_evaluator.py; `arrays`
   includes the destination array) -/
   | evalUpdateArrays (objs : List Nat)
@@ -312,6 +318,7 @@ def step (s : IState) : Op → IState
   | Op.updateArrays as => updateParticleArrays s as
   | Op.update => updateOp s
   | Op.mutate o => { s with ver := bump s.ver o }
+  | Op.touch _ => s
   | Op.evalUpdateArrays objs => evalUpdateParticleArrays s objs
 
 /-- `Interpolator.__init__(arrays, x=…)`: `_set_particle_arrays`, then
@@ -618,5 +625,116 @@ end TargetH
 of dtype `β`: `get_particle_array(x=x.ravel())` converts to double -/
 def castRavel {α β : Type} [OfNat β 0] (cast : β → α) (v : NdView β) : List α :=
   (ravelC v).map cast
+
+/-! ### order1 as three groups over the density the source arrays SHARE
+
+`Interpolator._get_equations` ('order1') builds three groups,
+
+    Group([SummationDensity(dest=name, sources=names) for name in names], real=False),
+    Group([SPHFirstOrderApproximationPreStep(dest='interpolate', sources=names, dim)], real=True),
+    Group([SPHFirstOrderApproximation(dest='interpolate', sources=names, dim)], real=True)
+
+and `interpolate` runs `func_eval.compute` = all of them, in this order, on every
+call.  Group 1 WRITES `rho` of the source arrays; groups 2 and 3 read `s_m/s_rho`.
+`rho`, `m`, `temp_prop` live in the source arrays: the caller may change them in
+place between two calls and any other evaluator built over the same arrays
+writes them too (an order1 one with another kernel leaves ITS summation density
+there).  Source particles are numbered `0, 1, …` over all source arrays. -/
+
+/-- a source particle as neighbour of a target point: its index `k` among the
+source particles (all arrays, in the order of `names`, real or not) and the
+kernel values / source position of the pair -/
+structure PtNbr (α : Type) where
+  k : Nat
+  w : α
+  dw0 : α
+  dw1 : α
+  dw2 : α
+  sx : α
+  sy : α
+  sz : α
+
+/-- kernel values among the SOURCE particles as one evaluator sees them (ITS
+kernel, the present positions and smoothing lengths): the particles it iterates
+over (`ids`, all of them: the group is `real=False`) and per particle `j` the
+neighbours `(k, W_jk)` in the order the loop visits them -/
+structure SrcGeo (α : Type) where
+  ids : List Nat
+  nbrs : Nat → List (Nat × α)
+
+/-- what the source arrays hold per particle — state SHARED by the caller and
+every evaluator built over the arrays: `m`, `rho`, `temp_prop` -/
+structure Store (α : Type) where
+  m : Nat → α
+  rho : Nat → α
+  f : Nat → α
+
+section
+variable {α : Type} [Add α] [Sub α] [Mul α] [Div α] [Neg α] [OfNat α 0] [OfNat α 1]
+  [LT α] [DecidableLT α] [BEq α]
+
+/-- the record `SummationDensity.loop` reads of source neighbour `k` (only `s_m`, `WIJ`) -/
+def rhoNbr (st : Store α) (kw : Nat × α) : Nbr α :=
+  { w := kw.2, dw0 := 0, dw1 := 0, dw2 := 0, sx := 0, sy := 0, sz := 0,
+    m := st.m kw.1, rho := st.rho kw.1, f := st.f kw.1 }
+
+/-- `d_rho[d_idx]` of source particle `j` after `SummationDensity` -/
+def densityAt (st : Store α) (g : SrcGeo α) (j : Nat) : α :=
+  summationDensity ((g.nbrs j).map (rhoNbr st))
+
+/-- group 1 of 'order1' (`SummationDensity(dest=name, sources=names) for name in names`,
+`real=False`): OVERWRITES `rho` of every source particle; `m`, `temp_prop` stay -/
+def group1 (g : SrcGeo α) (st : Store α) : Store α :=
+  { st with rho := fun j => if j ∈ g.ids then densityAt st g j else st.rho j }
+
+/-- the record the loops of groups 2 and 3 read of neighbour `p`: kernel values of
+the pair, `s_m`, `s_rho`, `s_temp_prop` from the arrays AS THEY ARE when the group runs -/
+def ptNbr (st : Store α) (p : PtNbr α) : Nbr α :=
+  { w := p.w, dw0 := p.dw0, dw1 := p.dw1, dw2 := p.dw2, sx := p.sx, sy := p.sy, sz := p.sz,
+    m := st.m p.k, rho := st.rho p.k, f := st.f p.k }
+
+/-- group 2 (`SPHFirstOrderApproximationPreStep`): `d_moment` of one point -/
+def group2 (st : Store α) (d : Pos α) (pn : List (PtNbr α)) : Array α :=
+  momentFlat d (pn.map (ptNbr st))
+
+/-- group 3 (`SPHFirstOrderApproximation`): `d_p_sph`, then `post_loop` solves
+against the `d_moment` group 2 left -/
+def group3 (tol : α) (dim : Nat) (st : Store α) (aMat : Array α) (pn : List (PtNbr α)) : Array α :=
+  order1Post tol dim aMat (psphFlat (pn.map (ptNbr st)))
+
+/-- `func_eval.compute` of an order1 Interpolator for one target point: ALL three
+groups run on EVERY call (no group has a `condition`), in this order, on the
+arrays as the call finds them.  Returns what it leaves in the arrays and the four
+numbers of the point. -/
+def order1Compute (tol : α) (dim : Nat) (g : SrcGeo α) (d : Pos α) (pn : List (PtNbr α))
+    (st : Store α) : Store α × Array α :=
+  let st1 := group1 g st
+  (st1, group3 tol dim st1 (group2 st1 d pn) pn)
+
+/-- what may happen to the shared arrays between two `interpolate` calls of one
+Interpolator without any call of its API: the caller changes masses, densities
+or the interpolated values in place; ANOTHER order1 evaluator over the same arrays
+(another kernel: another `SrcGeo`) computes; any evaluator stages `temp_prop` -/
+inductive SOp (α : Type) where
+  | setM (m : Nat → α)
+  | setRho (rho : Nat → α)
+  | setF (f : Nat → α)
+  | otherOrder1 (g : SrcGeo α)
+
+def sstep (st : Store α) : SOp α → Store α
+  | SOp.setM m => { st with m := m }
+  | SOp.setRho r => { st with rho := r }
+  | SOp.setF f => { st with f := f }
+  | SOp.otherOrder1 g => group1 g st
+
+def srun (st : Store α) (ops : List (SOp α)) : Store α := ops.foldl sstep st
+
+/-- ops that leave masses and staged values alone (they only write `rho`) -/
+def SOp.rhoOnly : SOp α → Bool
+  | SOp.setRho _ => true
+  | SOp.otherOrder1 _ => true
+  | _ => false
+
+end
 
 end PysphVerif.Interp
